@@ -291,8 +291,9 @@ class PaxosNode(Entity):
         self._phase1_responses[ballot_number].append(response)
         self._promises_received += 1
 
-        # Check if we have a quorum
-        if len(self._phase1_responses[ballot_number]) >= self.quorum_size:
+        # Start phase 2 exactly once per ballot: when the quorum is first reached.
+        # Later promises of the same ballot must not re-run the value choice.
+        if len(self._phase1_responses[ballot_number]) == self.quorum_size:
             return self._start_phase2(ballot_number)
 
         return []
